@@ -200,6 +200,9 @@ func bindFeatures(t, j map[string]interface{}) map[string]bool {
 		case "map":
 			f["map_"+sstr(t["key"])] = true
 			walkT(rec(t["e"]))
+		case "ifp":
+			f["ifp"], f["iface"] = true, true
+			walkT(rec(t["e"]))
 		case "ptr", "slice", "arr":
 			f[k] = true
 			if k == "slice" && sstr(rec(t["e"])["k"]) == "u8" {
@@ -228,6 +231,7 @@ func bindFeatures(t, j map[string]interface{}) map[string]bool {
 				walkJ(rec(e))
 			}
 		case "o":
+			f["object"] = true
 			seen := map[string]bool{}
 			for _, e := range seqOf(j["m"]) {
 				k := sstr(rec(e)["k"])
